@@ -65,16 +65,53 @@ pub fn cell_seed(verif_seed: u64, prop: &str, index: u64) -> u64 {
 }
 
 pub fn spawn_cell(prop: &str, tier: Tier, seed: u64, index: u64, extra: &[String]) -> CellRun {
+    use std::io::Read;
     let t0 = Instant::now();
-    let out = Command::new(exe())
+    let mut child = Command::new(exe())
         .arg("cell")
         .args(["--prop", prop, "--seed", &seed.to_string(), "--index", &index.to_string(), "--tier", tier.name()])
         .args(extra)
         .stdin(Stdio::null())
+        .stdout(Stdio::piped())
         .stderr(Stdio::piped())
-        .output()
+        .spawn()
         .expect("spawn cell");
-    let stdout = String::from_utf8_lossy(&out.stdout);
+    let mut out_pipe = child.stdout.take().unwrap();
+    let mut err_pipe = child.stderr.take().unwrap();
+    let out_reader = std::thread::spawn(move || {
+        let mut s = String::new();
+        let _ = out_pipe.read_to_string(&mut s);
+        s
+    });
+    let err_reader = std::thread::spawn(move || {
+        let mut s = String::new();
+        let _ = err_pipe.read_to_string(&mut s);
+        s
+    });
+    // a VM that never returns from run_n_steps cannot be caught by the step cap; the cell is
+    // killed after a wall-clock limit far above anything a healthy cell needs (< 1 min)
+    let limit = match tier {
+        Tier::Quick => Duration::from_secs(300),
+        Tier::Thorough => Duration::from_secs(1800),
+    };
+    let mut timed_out = false;
+    let status = loop {
+        match child.try_wait() {
+            Ok(Some(st)) => break Some(st),
+            Ok(None) => {
+                if t0.elapsed() > limit {
+                    let _ = child.kill();
+                    let _ = child.wait();
+                    timed_out = true;
+                    break None;
+                }
+                std::thread::sleep(Duration::from_millis(5));
+            }
+            Err(_) => break None,
+        }
+    };
+    let stdout = out_reader.join().unwrap_or_default();
+    let stderr = err_reader.join().unwrap_or_default();
     let mut last_run: i64 = -1;
     let mut report = None;
     for line in stdout.lines() {
@@ -85,13 +122,16 @@ pub fn spawn_cell(prop: &str, tier: Tier, seed: u64, index: u64, extra: &[String
         }
     }
     let aborted = if report.is_none() {
-        let stderr = String::from_utf8_lossy(&out.stderr);
         Some((
-            format!(
-                "cell process ended with {} before reporting; stderr tail: {}",
-                out.status,
-                stderr.lines().rev().take(3).collect::<Vec<_>>().join(" | ")
-            ),
+            if timed_out {
+                format!("cell process did not finish within {} s and was killed (the VM never returned control)", limit.as_secs())
+            } else {
+                format!(
+                    "cell process ended with {} before reporting; stderr tail: {}",
+                    status.map(|s| s.to_string()).unwrap_or_else(|| "unknown status".into()),
+                    stderr.lines().rev().take(3).collect::<Vec<_>>().join(" | ")
+                )
+            },
             last_run,
         ))
     } else {
@@ -450,7 +490,18 @@ pub fn check(prop: &str, tier: Tier, verif_seed: u64) -> i32 {
                         a.phase_instr.insert(pi.clone());
                     }
                     for e in &rep.exhaustive {
-                        *a.exhaustive.entry(e.split(" of the ").next().unwrap_or(e).chars().take(90).collect()).or_insert(0) += 1;
+                        // key = the kind of enumeration; per-cell sizes in parentheses are dropped
+                        let key: String = e
+                            .split(" (")
+                            .next()
+                            .unwrap_or(e)
+                            .split(" of the ")
+                            .next()
+                            .unwrap_or(e)
+                            .chars()
+                            .take(90)
+                            .collect();
+                        *a.exhaustive.entry(key).or_insert(0) += 1;
                     }
                     if let Some(s) = &rep.sample
                         && a.samples.len() < 3
@@ -601,7 +652,8 @@ pub fn check(prop: &str, tier: Tier, verif_seed: u64) -> i32 {
             "rule": plan::rule(prop),
             "samples": samples,
             "exhaustive": false,
-            "enumerated_parts": a.exhaustive,
+            "enumerated_parts_cells": a.exhaustive,
+            "enumerated_parts_note": "number of cells (programs) for which each enumeration was carried out completely; the two-phase grid is k1 in {1,2,3,7,64} x about 24 switch points x k2 in {1,5,u32::MAX}",
             "cells": a.cells,
             "cells_planned": n_cells,
             "cells_rejected": a.rejected,
